@@ -374,3 +374,173 @@ Proof.
   intros W W' C S T NK. apply (any_field_mutation_fails_lemma K q q' p p' W W' C S). left.
   unfold signed_fields. intros E. injection E as _ Es _ _. apply NK. split; assumption.
 Qed.
+
+(* ================================================================ verify_peer_quote (stateful) *)
+Lemma h_lookup_upsert_same p q h : h_lookup p (h_upsert p q h) = Some q.
+Proof.
+  induction h as [|[p' q'] h IH]; cbn [h_upsert h_lookup].
+  - now rewrite N.eqb_refl.
+  - destruct (N.eqb_spec p p') as [->|Hne]; cbn [h_lookup].
+    + now rewrite N.eqb_refl.
+    + destruct (N.eqb_spec p p'); [contradiction|exact IH].
+Qed.
+
+Lemma h_lookup_upsert_other p p' q h : p' <> p -> h_lookup p' (h_upsert p q h) = h_lookup p' h.
+Proof.
+  intros Hne. induction h as [|[p0 q0] h IH]; cbn [h_upsert h_lookup].
+  - destruct (N.eqb_spec p' p); [contradiction|reflexivity].
+  - destruct (N.eqb_spec p p0) as [->|H0]; cbn [h_lookup].
+    + destruct (N.eqb_spec p' p0); [contradiction|reflexivity].
+    + destruct (N.eqb_spec p' p0); [reflexivity|exact IH].
+Qed.
+
+Lemma hv_true_cases n1 n2 ref q :
+  historical_verify n1 n2 ref q = true ->
+  (timestamp q < timestamp ref ->
+     live_time (qmetrics q) <= live_time (qmetrics ref) /\
+     received_payment_count (qmetrics q) <= received_payment_count (qmetrics ref)) /\
+  (timestamp ref <= timestamp q ->
+     live_time (qmetrics ref) <= live_time (qmetrics q) /\
+     received_payment_count (qmetrics ref) <= received_payment_count (qmetrics q)).
+Proof.
+  unfold historical_verify, is_newer_than.
+  destruct (N.ltb_spec (timestamp q) (timestamp ref)) as [T|T].
+  - destruct (N.ltb_spec (live_time (qmetrics ref)) (live_time (qmetrics q))) as [L|L]; [discriminate|].
+    destruct (N.ltb_spec (received_payment_count (qmetrics ref)) (received_payment_count (qmetrics q))) as [R|R];
+      [discriminate|].
+    intros _. split; intros; [split; assumption|lia].
+  - destruct (N.ltb_spec (live_time (qmetrics q)) (live_time (qmetrics ref))) as [L|L]; [discriminate|].
+    destruct (N.ltb_spec (received_payment_count (qmetrics q)) (received_payment_count (qmetrics ref))) as [R|R];
+      [discriminate|].
+    intros _. split; intros; [lia|split; assumption].
+Qed.
+
+Lemma dominates_refl q : dominates q q.
+Proof. unfold dominates. repeat split; apply N.le_refl. Qed.
+
+Lemma dominates_trans a b c : dominates a b -> dominates b c -> dominates a c.
+Proof. unfold dominates. intros (A1 & A2 & A3) (B1 & B2 & B3). repeat split; eapply N.le_trans; eauto. Qed.
+
+(* the invariant: the reference of a peer is one of its accepted quotes and dominates all of them *)
+Definition h_inv (h : history) (P : N -> quote -> Prop) : Prop :=
+  (forall p ref, h_lookup p h = Some ref -> P p ref) /\
+  (forall p a, P p a -> exists ref, h_lookup p h = Some ref /\ dominates ref a).
+
+Lemma verify_step_inv now h P p q :
+  h_inv h P ->
+  h_inv (fst (verify_peer_quote now h p q))
+        (fun p' a => P p' a \/ (p' = p /\ snd (verify_peer_quote now h p q) = false /\ a = q)).
+Proof.
+  intros [I1 I2]. unfold verify_peer_quote.
+  destruct (h_lookup p h) as [ref|] eqn:Hl.
+  - destruct (historical_verify now now ref q) eqn:Hv; cbn [negb fst snd].
+    + pose proof (hv_true_cases _ _ _ _ Hv) as [Hold Hnew].
+      unfold is_newer_than. destruct (N.ltb_spec (timestamp q) (timestamp ref)) as [T|T]; cbn [fst snd].
+      * (* reference is newer: the quote is accepted but not stored *)
+        split.
+        -- intros p' r Hr. left. now apply I1.
+        -- intros p' a [Ha|(-> & _ & ->)]; [now apply I2|].
+           exists ref. split; [exact Hl|]. destruct (Hold T). unfold dominates. repeat split; lia.
+      * (* the quote becomes the reference *)
+        destruct (Hnew T) as [L R].
+        assert (Dq : dominates q ref) by (unfold dominates; repeat split; assumption).
+        split.
+        -- intros p' r Hr. destruct (N.eq_dec p' p) as [->|Hne].
+           ++ rewrite h_lookup_upsert_same in Hr. injection Hr as <-. right. auto.
+           ++ rewrite h_lookup_upsert_other in Hr by exact Hne. left. now apply I1.
+        -- intros p' a [Ha|(-> & _ & ->)].
+           ++ destruct (I2 _ _ Ha) as (r & Hr & Dr). destruct (N.eq_dec p' p) as [->|Hne].
+              ** exists q. rewrite h_lookup_upsert_same. split; [reflexivity|].
+                 rewrite Hl in Hr. injection Hr as <-. eapply dominates_trans; eauto.
+              ** exists r. rewrite h_lookup_upsert_other by exact Hne. auto.
+           ++ exists q. rewrite h_lookup_upsert_same. split; [reflexivity|apply dominates_refl].
+    + (* flagged: nothing changes *)
+      split.
+      * intros p' r Hr. left. now apply I1.
+      * intros p' a [Ha|(_ & F & _)]; [now apply I2|discriminate].
+  - (* first quote of this peer *)
+    cbn [fst snd]. split.
+    + intros p' r Hr. destruct (N.eq_dec p' p) as [->|Hne].
+      * rewrite h_lookup_upsert_same in Hr. injection Hr as <-. right. auto.
+      * rewrite h_lookup_upsert_other in Hr by exact Hne. left. now apply I1.
+    + intros p' a [Ha|(-> & _ & ->)].
+      * destruct (I2 _ _ Ha) as (r & Hr & Dr). destruct (N.eq_dec p' p) as [->|Hne]; [congruence|].
+        exists r. rewrite h_lookup_upsert_other by exact Hne. auto.
+      * exists q. rewrite h_lookup_upsert_same. split; [reflexivity|apply dominates_refl].
+Qed.
+
+Lemma h_inv_ext h P Q : (forall p a, P p a <-> Q p a) -> h_inv h P -> h_inv h Q.
+Proof.
+  intros E [I1 I2]. split.
+  - intros p r Hr. apply E. now apply I1.
+  - intros p a Ha. apply I2. now apply E.
+Qed.
+
+Lemma run_inv ds : forall h P,
+  h_inv h P -> h_inv (fst (run_deliveries h ds)) (fun p a => P p a \/ In a (accepted h ds p)).
+Proof.
+  induction ds as [|[[now p] q] ds IH]; intros h P I; cbn [run_deliveries accepted].
+  - cbn [fst]. eapply h_inv_ext; [|exact I]. intros; cbn [In]; tauto.
+  - pose proof (verify_step_inv now h P p q I) as I'.
+    destruct (verify_peer_quote now h p q) as [h1 f] eqn:E. cbn [fst snd] in I'.
+    specialize (IH h1 _ I').
+    destruct (run_deliveries h1 ds) as [h2 fs] eqn:E2. cbn [fst] in *.
+    eapply h_inv_ext; [|exact IH]. intros p' a. cbn beta.
+    destruct (N.eqb_spec p' p) as [->|Hne]; cbn [andb].
+    + destruct f; cbn [negb In].
+      * split; [intros [[A|(_ & F & _)]|A]; [auto|discriminate|auto]|intros [A|A]; auto].
+      * split; [intros [[A|(_ & _ & ->)]|A]; auto|intros [A|[<-|A]]; auto].
+    + split; [intros [[A|(C & _)]|A]; [auto|contradiction|auto]|intros [A|A]; auto].
+Qed.
+
+Lemma history_invariant_lemma ds p :
+  let h := fst (run_deliveries [] ds) in
+  (forall ref, h_lookup p h = Some ref -> In ref (accepted [] ds p)) /\
+  (forall a, In a (accepted [] ds p) -> exists ref, h_lookup p h = Some ref /\ dominates ref a).
+Proof.
+  assert (I0 : h_inv [] (fun _ _ => False)).
+  { split; [intros p0 r H; discriminate|intros p0 a []]. }
+  pose proof (run_inv ds [] _ I0) as [I1 I2]. cbn zeta. split.
+  - intros ref Hr. destruct (I1 _ _ Hr) as [[]|H]. exact H.
+  - intros a Ha. apply I2. now right.
+Qed.
+
+(* a quote that is at least as new as everything accepted so far from that peer, and reports less
+   than some accepted strictly earlier quote, is flagged -- whatever the clock says *)
+Lemma regression_flagged_lemma ds now p q a :
+  In a (accepted [] ds p) -> timestamp a < timestamp q -> reports_less q a ->
+  (forall a', In a' (accepted [] ds p) -> timestamp a' <= timestamp q) ->
+  snd (verify_peer_quote now (fst (run_deliveries [] ds)) p q) = true.
+Proof.
+  intros Ha Ta Less Newest.
+  destruct (history_invariant_lemma ds p) as [I1 I2]. cbn zeta in *.
+  destruct (I2 _ Ha) as (ref & Hr & (D1 & D2 & D3)).
+  pose proof (Newest _ (I1 _ Hr)) as Tr.
+  unfold verify_peer_quote. rewrite Hr.
+  destruct (historical_verify now now ref q) eqn:Hv; [|reflexivity]. exfalso.
+  destruct (hv_true_cases _ _ _ _ Hv) as [_ Hnew]. destruct (Hnew Tr) as [L R].
+  destruct Less as [Less|Less]; lia.
+Qed.
+
+(* ... but a regressing quote that is older than the peer's newest accepted quote is only compared
+   with that newest one and slips through: the history keeps a single reference per peer *)
+Definition mq (ts lt rpc : N) : quote :=
+  {| content := []; timestamp := ts * NS;
+     qmetrics := {| close_records_stored := 0; max_records := 0; received_payment_count := rpc;
+                    live_time := lt; network_density := None; network_size := None |};
+     rewards_address := []; pub_key := []; signature := [] |}.
+
+Lemma regression_between_refuted_lemma :
+  exists ds now p q a,
+    In a (accepted [] ds p) /\ timestamp a < timestamp q /\ reports_less q a /\
+    snd (verify_peer_quote now (fst (run_deliveries [] ds)) p q) = false.
+Proof.
+  exists [(1000 * NS, 1, mq 100 5 10); (1000 * NS, 1, mq 900 6 20)], (1000 * NS), 1, (mq 500 5 7), (mq 100 5 10).
+  vm_compute. repeat split; auto.
+Qed.
+
+(* the three-step scenario: stale quote must not replace the reference *)
+Example stale_quote_does_not_replace_reference :
+  snd (run_deliveries [] [(1000 * NS, 1, mq 980 5 10); (1000 * NS, 1, mq 900 5 5); (1000 * NS, 1, mq 995 5 7)])
+  = [false; false; true].
+Proof. vm_compute. reflexivity. Qed.
